@@ -17,6 +17,8 @@ thread_local! {
     static RECOMPUTES: Cell<u32> = Cell::new(0);
     static INCOHERENT: RefCell<Vec<String>> = RefCell::new(Vec::new());
     static CALLBACKS: Cell<u32> = Cell::new(0);
+    /// runs of the child function that edits the expert node's dependencies
+    static CHILD_RUNS: Cell<u32> = Cell::new(0);
 }
 
 #[derive(Clone, Debug, PartialEq, Default)]
@@ -134,6 +136,7 @@ fn dyn_sum(w: &World, ctl: &Var<Ctl>) -> (Incr<i32>, Deps) {
     let deps2 = deps.clone();
     let mut last_toggle = 0u32;
     let lhs_change = ctl.map(move |c: &Ctl| {
+        CHILD_RUNS.with(|c| c.set(c.get() + 1));
         let mut deps = deps2.borrow_mut();
         // remove what is no longer selected
         let mut want: Vec<u8> = c.sel.clone();
@@ -183,6 +186,7 @@ fn expert_bind(incr: &Incr<i32>, pool: Vec<Incr<i32>>, slot: Rc<RefCell<Option<I
     });
     let weak = join.weak();
     let lhs_change = incr.map(move |v: &i32| {
+        CHILD_RUNS.with(|c| c.set(c.get() + 1));
         let ix = (v.rem_euclid(POOL as i32)) as usize;
         let rhs: Incr<i32> = if ix < pool.len() {
             pool[ix].clone()
@@ -234,6 +238,27 @@ pub fn run_c14(bytes: &[u8], tier: Tier) -> Outcome {
         };
         let above = node.map(|v| v + 1);
         trace.push(format!("{} ; x={x0:?} sw={sw0}", if mode_bind { "expert bind over pool[v % 5]" } else { "dynamic sum" }));
+        // decoder v2, a third of the cases: the expert node is needed only through a bind that
+        // a gate variable opens and closes, so that it stops / starts being needed in the middle
+        // of a stabilise (before or after its child function ran, depending on the delay)
+        let gated = crate::choice::dv() >= 2 && ch.flag(1, 3);
+        let gate_var = w.st.var(true);
+        let mut gate_open = true;
+        let mut gate_was_open = false;
+        let gate_obs: Option<Observer<i32>> = if gated {
+            let delay = ch.choose(6);
+            let mut g: Incr<bool> = gate_var.watch();
+            for _ in 0..delay {
+                g = g.map(|b| *b);
+            }
+            let ab = above.clone();
+            let fb = w.st.constant(-1i32);
+            trace.push(format!("observed only through gate.map^{delay}.bind(open => expert node + 1 | closed => -1)"));
+            Some(g.bind(move |open| if *open { ab.clone() } else { fb.clone() }).observe())
+        } else {
+            None
+        };
+        let mut gate_cases_closing_child_ran = 0u64;
         let mut obs: Option<(Observer<i32>, Observer<i32>)> = None;
         let mut sel_val = 0i32;
         // model of the expert node
@@ -298,6 +323,16 @@ pub fn run_c14(bytes: &[u8], tier: Tier) -> Outcome {
                             trace.push(format!("slot := node of bind generation {g}"));
                         }
                     }
+                    5 if gated => {
+                        gate_open = !gate_open;
+                        gate_var.set(gate_open);
+                        if !gate_open {
+                            was_unobserved = true;
+                        } else if was_unobserved {
+                            reobserved = true;
+                        }
+                        trace.push(format!("gate.set({gate_open})"));
+                    }
                     5 => {
                         if obs.is_some() {
                             obs = None;
@@ -320,11 +355,17 @@ pub fn run_c14(bytes: &[u8], tier: Tier) -> Outcome {
                     }
                 }
             }
-            if step == 0 && obs.is_none() {
+            if step == 0 && obs.is_none() && !gated {
                 obs = Some((node.observe(), above.observe()));
                 trace.push("observe".into());
             }
+            if step == 0 && gated && !gate_open {
+                gate_open = true;
+                gate_var.set(true);
+                trace.push("gate.set(true)".into());
+            }
             RECOMPUTES.with(|r| r.set(0));
+            CHILD_RUNS.with(|r| r.set(0));
             let res = guarded(|| w.st.stabilise());
             rounds += 1;
             let recomputes = RECOMPUTES.with(|r| r.get());
@@ -339,12 +380,29 @@ pub fn run_c14(bytes: &[u8], tier: Tier) -> Outcome {
                 m.sw_at_last_run = m.sw;
                 bind_ran = true;
             }
-            let Some((o, oa)) = &obs else { continue };
+            let observed_now = if gated { gate_open } else { obs.is_some() };
+            // the round in which the gate closes: whether the child function still ran before the
+            // node stopped being needed depends on heights; take it from the instrumentation
+            let closing = gated && !gate_open && gate_was_open;
+            gate_was_open = gate_open;
+            if !observed_now && !closing {
+                continue;
+            }
             // the child function has processed the latest control value
             // (it only runs when its input changed or it has never run)
-            let child_fn_runs = if mode_bind { !lhs_ran || sel_val != processed_sel } else { !lhs_ran || ctl != processed_ctl };
-            lhs_ran = true;
-            processed_sel = sel_val;
+            let predicted = if mode_bind { !lhs_ran || sel_val != processed_sel } else { !lhs_ran || ctl != processed_ctl };
+            let child_fn_runs = if closing { CHILD_RUNS.with(|c| c.get()) > 0 } else { predicted };
+            if closing && child_fn_runs && !predicted {
+                fails.push(Failure { prop: "C14", clause: "child-ran-without-change", msg: format!("step {step}: the dependency-editing child function ran although its input did not change") });
+                return;
+            }
+            if child_fn_runs {
+                lhs_ran = true;
+                processed_sel = sel_val;
+                if closing {
+                    gate_cases_closing_child_ran += 1;
+                }
+            }
             if !child_fn_runs {
                 // dependencies stay as they are
             } else if mode_bind {
@@ -386,13 +444,45 @@ pub fn run_c14(bytes: &[u8], tier: Tier) -> Outcome {
                 }
                 processed_ctl = ctl.clone();
             }
+            if closing {
+                // the node may have recomputed before it stopped being needed: the callbacks it had
+                // seen by then must have been coherent, and it must not have run twice
+                let inc = INCOHERENT.with(|v| std::mem::take(&mut *v.borrow_mut()));
+                if let Some(i) = inc.first() {
+                    fails.push(Failure { prop: "C14", clause: "callback-coherence", msg: format!("step {step} (gate closing): when the expert node recomputed, {i}") });
+                    return;
+                }
+                if recomputes > 1 {
+                    fails.push(Failure { prop: "C14", clause: "recomputed-twice", msg: format!("step {step}: expert node recomputed {recomputes} times in one stabilise") });
+                    return;
+                }
+                if recomputes > 0 {
+                    first_run_done = true;
+                }
+                processed_toggle = processed_ctl.stale_toggle;
+                let got = gate_obs.as_ref().unwrap().try_get_value();
+                if invalid {
+                    // (the gate's bind was looking at an invalid node: stop this history here)
+                    return;
+                }
+                if got != Ok(-1) {
+                    fails.push(Failure { prop: "C14", clause: "value", msg: format!("step {step}: gate closed, its bind returned {got:?} instead of the fallback") });
+                }
+                continue;
+            }
             let vals: Vec<Option<i32>> = held.iter().map(|(ix, h)| m.pool_val(*ix, *h)).collect();
             if vals.iter().any(|v| v.is_none()) {
                 // still depends on an invalid child when it is about to run
                 invalid = true;
             }
-            let got = o.try_get_value();
-            let got_above = oa.try_get_value();
+            let (got, got_above) = match (&obs, &gate_obs) {
+                (_, Some(g)) => {
+                    let a = g.try_get_value();
+                    (a.clone().map(|v| v - 1), a)
+                }
+                (Some((o, oa)), None) => (o.try_get_value(), oa.try_get_value()),
+                _ => unreachable!(),
+            };
             if invalid {
                 if got.is_ok() || got_above.is_ok() {
                     fails.push(Failure {
@@ -400,6 +490,10 @@ pub fn run_c14(bytes: &[u8], tier: Tier) -> Outcome {
                         clause: "should-be-invalid",
                         msg: format!("step {step}: expert node should be invalid (invalidate requested or an invalid dependency kept) but observers returned {got:?} / {got_above:?}"),
                     });
+                    return;
+                }
+                if gated {
+                    // the gate's bind is now invalid for good
                     return;
                 }
             } else {
@@ -440,6 +534,8 @@ pub fn run_c14(bytes: &[u8], tier: Tier) -> Outcome {
             ("cases_with_reobservation", reobserved as u64),
             ("cases_ending_invalid", invalid as u64),
             ("cases_bind_mode", mode_bind as u64),
+            ("cases_needed_only_through_a_gate_bind", gated as u64),
+            ("gate_closing_rounds_in_which_the_child_function_still_ran", gate_cases_closing_child_ran),
             ("stabilises", rounds),
             ("edge_callbacks", CALLBACKS.with(|c| c.replace(0)) as u64),
         ];
